@@ -22,7 +22,7 @@ pub enum StdinKind {
 
 #[derive(Clone, Debug)]
 pub struct ProcSpec {
-    pub args: Vec<String>,
+    pub args: Vec<std::ffi::OsString>,
     pub env: Vec<(String, String)>,
     pub cwd: PathBuf,
     pub stdin: Vec<u8>,
